@@ -112,6 +112,10 @@ var templateSrc = []struct {
 	{"clm", "l", "closures-made-by-mapcar-called-afterwards", "(let ((fs (mapcar (lambda (a) (lambda (b) (list a b))) (list ?i ?i)))) (list (funcall (car fs) ?i) (funcall (car (cdr fs)) ?i) (funcall (car fs) ?i)))", 0},
 	{"cld", "l", "closures-made-in-dolist-called-afterwards", "(let ((fs nil)) (dolist (i (list ?i ?i)) (let ((x i)) (setq fs (cons (lambda (b) (setq x (+ x b))) fs)))) (list (funcall (car fs) ?i) (funcall (car (cdr fs)) ?i) (funcall (car fs) ?i)))", 0},
 	{"clr", "i", "closure-made-before-a-recursive-call-used-after-it", "(let () (defun NAME (n) (let ((f (lambda (a) (+ a n)))) (if (= n 0) (funcall f ?i+n*) (+ (NAME (- n 1)) (funcall f ?i+n*))))) (NAME ?c))", 0},
+	{"lhr", "l", "lambda-form-call-evaluated-again-under-a-new-binding", "(mapcar (lambda (n) (let ((x n)) ((lambda (a) (setq x (+ x a)) (list a x ?a+a+x*)) ?i+x*))) (list ?i ?i))", 1},
+	{"lfr", "l", "funcall-lambda-evaluated-again-under-a-new-binding", "(mapcar (lambda (n) (let ((x n)) (funcall (lambda (a) (setq x (+ x a)) (list a x ?a+a+x*)) ?i+x*))) (list ?i ?i))", 0},
+	{"lsr", "l", "funcall-sharp-quote-lambda-evaluated-again-under-a-new-binding", "(mapcar (lambda (n) (let ((x n)) (funcall #'(lambda (a) (setq x (+ x a)) (list a x ?a+a+x*)) ?i+x*))) (list ?i ?i))", 0},
+	{"lhd", "l", "lambda-form-call-in-a-function-called-twice", "(let () (defun NAME (n) ((lambda (a) (list a n ?a+a+n*)) ?i+n*)) (list (NAME ?i) (NAME ?i)))", 0},
 	{"ltf", "r", "let-lambda", "(let ((f (lambda (a) ?i+a*))) ?r+f&)", 2},
 	{"lmc", "r", "lambda-form-call", "((lambda (a b) ?a+a+b* ?r+a+b*) ?i ?i)", 2},
 	{"lmf", "r", "funcall-lambda", "(funcall (lambda (a b) ?r+a+b*) ?i ?i)", 0},
